@@ -485,7 +485,7 @@ def run_kernel(ctx, K):
     pre = [K.pre(**ins_t)] if K.pre else []
     pre = [p if isinstance(p, z3.ExprRef) else z3.BoolVal(bool(p)) for p in pre] + list(extra_pre)
     t = time.time()
-    outs = ex.run(K.func, args)
+    outs = ex.run(K.func, args, heap=getattr(ex, 'initial_heap', None))
     ctx.absorb(ex)
     decoded = []
     for o in outs:
@@ -503,7 +503,10 @@ def run_kernel(ctx, K):
         conc = {n: model_val(model, ins_t[n]) for n, _ in K.inputs}
         if K.native is None:
             return 'unreplayed', f'counterexample {conc} (no native route for this kernel)'
-        ntag, nvals = K.native(ctx.native, conc)
+        nr = K.native(ctx.native, conc)
+        if nr is None:
+            return 'unreplayed', f'counterexample {conc} (no public route reaches this kernel with these arguments)'
+        ntag, nvals = nr
         okspec = K.spec(conc, ntag, nvals)
         if not okspec:
             st = ctx.violation(K.name, K.role, f'inputs {conc}: real code returns {ntag}{nvals}, which violates the specification',
@@ -562,7 +565,10 @@ def run_kernel(ctx, K):
                     m = s.model()
                     hit = (tag, [model_val(m, v) if isinstance(v, z3.ExprRef) else v for v in vals])
                     break
-            ntag, nvals = K.native(ctx.native, conc)
+            nr = K.native(ctx.native, conc)
+            if nr is None:
+                continue
+            ntag, nvals = nr
             nval += 1
             if hit is None or hit[0] != ntag or list(hit[1]) != list(nvals):
                 ctx.mismatch(K.name, f'translator validation: inputs {conc}: encoding gives {hit}, real code gives {(ntag, nvals)}')
